@@ -50,9 +50,10 @@ class Ctx:
     # ------------------------------------------------------------ verdicts
     def _match(self, sig):
         for k in self._known:
-            m = k.get("match", {})
-            if all(sig.get(a) == b for a, b in m.items()):
-                return k
+            ms = k.get("match_any") or [k.get("match", {"__never__": 1})]
+            for m in ms:
+                if all(sig.get(a) == b for a, b in m.items()):
+                    return k
         return None
 
     def violation(self, sig, detail, case):
